@@ -177,7 +177,7 @@ fn client(d: Arc<dyn Drv>, h: HCfg, tid: u8, ids: Arc<AtomicU64>, clears: Arc<(A
                 rec.id = id;
                 rec.cost = rng.range(1, h.cost_max as u64) as i64;
                 rec.ttl_ns = if op == OP_INSERT && rng.below(10) < h.ttl_share as u64 { ttl_for(&mut rng) } else { 0 };
-                rec.aux = rng.range(0, 4) as i64;
+                rec.aux = if h.mode == "hammer" { rng.range(0, 1000) as i64 } else { rng.range(0, 4) as i64 };
                 let v = Tracked::with_aux(id, key, rec.aux);
                 let before = val::tl_exits();
                 rec.call = seq::next();
@@ -767,6 +767,7 @@ pub fn check_history(hist: &Hist, rep: &mut Report) {
     }
     let ok_waits: Vec<(u64, u64)> = ops.iter().filter(|o| o.op == OP_WAIT && o.ok).map(|o| (o.call, o.ret)).collect();
     let removes: Vec<&OpRec> = ops.iter().filter(|o| o.op == OP_REMOVE && o.ok).collect();
+    let all_removes: Vec<&OpRec> = ops.iter().filter(|o| o.op == OP_REMOVE).collect();
     let mut updates_by_key: HashMap<u64, Vec<&OpRec>> = HashMap::new();
     for o in ops.iter() {
         if matches!(o.op, OP_INSERT | OP_IF_PRESENT) && o.ok && o.update_path {
@@ -838,7 +839,9 @@ pub fn check_history(hist: &Hist, rep: &mut Report) {
                             || mutated_away.get(&w.id).map_or(false, |s| *s < o.ret)
                             || updates_by_key.get(&o.key).map_or(false, |v| v.iter().any(|w2| w2.exited_id == w.id && w2.call < o.ret));
                         let cleared = clears.iter().any(|(_cc, cr)| *cr > w.call);
-                        let removed = removes.iter().any(|x| x.key == o.key && x.ret > w.call && x.call < o.ret);
+                        // any remove() call, also one that failed on the full buffer: it deletes from the
+                        // store first, and its on_exit may lag behind the deletion
+                        let removed = all_removes.iter().any(|x| x.key == o.key && x.ret > w.call && x.call < o.ret);
                         if !gone && !cleared && !removed {
                             rep.violate("C02", "update/rolled-back", format!("{}: returned a value written by {} although the later in-place update {} had been applied and its value never left the cache", o.short(), wu.short(), w.short()), tl(o.ret));
                         }
@@ -912,7 +915,11 @@ pub fn check_history(hist: &Hist, rep: &mut Report) {
         rep.add("ho_sets_dropped_observed", sdrop);
         // C15: every flushed batch is accounted exactly once
         let pushes: Vec<(u64, usize, u8)> = hist.policy.iter().filter_map(|e| if let observe::Ev::Push { seq, keys, outcome } = e { Some((*seq, keys.len(), *outcome)) } else { None }).collect();
-        let plo: u64 = pushes.iter().filter(|p| p.0 > z_hi).map(|p| p.1 as u64).sum();
+        // a batch is counted in the metrics inside the look-up that flushed it, its event is stamped a
+        // little later: only batches stamped after every look-up that overlapped the last clear() has
+        // returned are certainly counted after the counters were zeroed
+        let t_after = lookups.iter().filter(|o| o.call <= z_hi).map(|o| o.ret).max().unwrap_or(0).max(z_hi);
+        let plo: u64 = pushes.iter().filter(|p| p.0 > t_after).map(|p| p.1 as u64).sum();
         let phi: u64 = pushes.iter().map(|p| p.1 as u64).sum();
         rep.add("ho_batches_flushed", pushes.len() as u64);
         rep.add("ho_batches_dropped", pushes.iter().filter(|p| p.2 != 0).count() as u64);
@@ -1007,11 +1014,13 @@ pub fn gen_history(prop: &str, rng: &mut Rng, hno: u64) -> HCfg {
         "C10" => "barrier",
         "C15" => "readers",
         "pairs" => "pairs",
+        "hammer" => "hammer",
         _ => "mixed",
     };
-    let threads = if mode == "pairs" { *rng.pick(&[8u8, 12, 16, 16]) } else { *rng.pick(&[2u8, 3, 4, 4, 6, 8, 12, 16]) };
+    let threads = if mode == "pairs" || mode == "hammer" { *rng.pick(&[8u8, 12, 16, 16]) } else { *rng.pick(&[2u8, 3, 4, 4, 6, 8, 12, 16]) };
     let keys = match mode {
         "barrier" => rng.range(2, 8),
+        "hammer" => rng.range(1, 3),
         _ => rng.range(4, 16),
     };
     let tight = mode != "barrier" && rng.chance(2, 3);
@@ -1038,13 +1047,15 @@ pub fn gen_history(prop: &str, rng: &mut Rng, hno: u64) -> HCfg {
     let w: [u32; 10] = match mode {
         "barrier" => [40, 4, 4, 0, 0, 0, 18, 14, clear_w, 0],
         "readers" => [8, 0, 70, 10, 0, 2, 3, 3, 0, 0],
+        // many threads writing very few keys, no delays: raw contention on one entry
+        "hammer" => [60, 12, 10, 4, 0, 2, 4, 2, 0, 0],
         _ => [34, 5, 22, 4, if prop == "C08" { 0 } else { 3 }, 4, 12, 5, clear_w, if prop == "C01" { 3 } else { 0 }],
     };
     HCfg {
         cfg: Cfg {
             num_counters: *rng.pick(&[100usize, 1000, 10_000]),
-            max_cost: if mode == "pairs" { 1 << 40 } else { max_cost },
-            buffer_size: if mode == "pairs" { 32 * 1024 } else { *rng.pick(&[1usize, 2, 4, 16, 1024, 32 * 1024]) },
+            max_cost: if mode == "pairs" || mode == "hammer" { 1 << 40 } else { max_cost },
+            buffer_size: if mode == "pairs" || mode == "hammer" { 32 * 1024 } else { *rng.pick(&[1usize, 2, 4, 16, 1024, 32 * 1024]) },
             buffer_items: *rng.pick(&[0usize, 1, 2, 3, 64]),
             metrics: true,
             ignore_internal: true,
@@ -1057,13 +1068,13 @@ pub fn gen_history(prop: &str, rng: &mut Rng, hno: u64) -> HCfg {
         threads,
         keys,
         ops: if mode == "pairs" { rng.range(300, 500) as u32 } else { rng.range(100, 400) as u32 },
-        delays: if mode == "pairs" && rng.chance(1, 2) { None } else if rng.chance(3, 4) { Some((*rng.pick(&[50u32, 200, 500]), *rng.pick(&[20u32, 100, 400]))) } else { None },
+        delays: if mode == "hammer" || (mode == "pairs" && rng.chance(1, 2)) { None } else if rng.chance(3, 4) { Some((*rng.pick(&[50u32, 200, 500]), *rng.pick(&[20u32, 100, 400]))) } else { None },
         timekeeper: mode != "barrier" || rng.chance(1, 2),
         w,
         ttl_share: if mode == "barrier" { 0 } else { 3 },
         cost_max,
         start_ns: 1_700_000_000_000_000_000 + hno * 137_000_000,
-        vld_mode: if prop == "C09" && rng.chance(2, 3) { *rng.pick(&[2u8, 2, 3, 4]) } else if prop == "C08" && rng.chance(1, 3) { rng.range(1, 4) as u8 } else { 0 },
+        vld_mode: if mode == "hammer" { 2 } else if prop == "C09" && rng.chance(2, 3) { *rng.pick(&[2u8, 2, 3, 4]) } else if prop == "C08" && rng.chance(1, 3) { rng.range(1, 4) as u8 } else { 0 },
         seed: rng.next() >> 16,
     }
 }
@@ -1071,7 +1082,7 @@ pub fn gen_history(prop: &str, rng: &mut Rng, hno: u64) -> HCfg {
 pub fn run(ctx: &Ctx, rng: Rng, rep: &mut Report) {
     let histories = ctx.n(ctx.quick_n.unwrap_or(60), ctx.thorough_n.unwrap_or(1200));
     let flavors = flavors_for(ctx, &[Flavor::Sync], &[Flavor::Sync]);
-    let watchdog = Duration::from_secs(if ctx.thorough() { 300 } else { 120 });
+    let watchdog = Duration::from_secs(if ctx.thorough() { 300 } else { 180 });
     for hno in 0..histories {
         let mut hrng = rng.derive(hno);
         let h = gen_history(ctx.mode.as_deref().unwrap_or(&ctx.prop), &mut hrng, ctx.shard * 100_000 + hno);
